@@ -75,19 +75,19 @@ def judge(v, inputs, obs, crashes, tag):
     for idx, rc in crashes:
         rec = inputs[idx]
         how = "timed out" if rc == -999 else (f"killed by signal {-rc}" if rc < 0 else f"exit status {rc}")
-        case = {"why": rec.get("why"), "input": rec.get("template") or rec.get("bytes", [])[:120], "process": how, "set": tag}
+        case = {"why": rec.get("why"), "input": rec.get("template") or rec.get("map_keys") or rec.get("bytes", [])[:120], "process": how, "set": tag}
         v.violation("decoding this input took the whole process down (stack overflow / abort / allocation failure)", case)
     for i, rec in enumerate(inputs):
         o = obs.get(i)
         if o is None:
             continue
-        key = json.dumps(rec.get("template") or rec.get("bytes"))
+        key = json.dumps(rec.get("template") or rec.get("map_keys") or rec.get("bytes"))
         v.case(key)
         infl = rec.get("inflated", 0)
         lim = bound(o["len"], infl)
         for ep, (kind, largest, total, detail) in o["r"].items():
             v.cov["evaluations"] += 1
-            case = {"why": rec.get("why"), "entry_point": ep, "input_len": o["len"], "input": rec.get("template") or rec.get("bytes", [])[:160], "set": tag}
+            case = {"why": rec.get("why"), "entry_point": ep, "input_len": o["len"], "input": rec.get("template") or rec.get("map_keys") or rec.get("bytes", [])[:160], "set": tag}
             if kind == "panic":
                 v.violation("decoder panicked on untrusted input", {**case, "panic": detail})
             elif largest > lim:
@@ -145,7 +145,14 @@ def run(tier, seed):
             else:
                 del m[pos]
             muts.append({"why": "mutation / splice of a valid encoding", "bytes": m})
-    sets = [("grammar", attacks), ("nest", templates), ("compressed", comp), ("trunc", trunc), ("mut", muts)]
+    # decoding a map compares its keys: every ordered pair (and some triples) of the order universe (all type ranks, numeric and
+    # bit-string neighbours, empty binary / atom / tuple) as the keys of a well-formed MAP_EXT
+    import order_universe
+    ou = order_universe.universe(thorough)
+    keyed = [{"why": "well-formed map with these two keys", "map_keys": [x, y]} for x in ou for y in ou]
+    for _ in range(20000 if thorough else 2000):
+        keyed.append({"why": "well-formed map with these three keys", "map_keys": [rng.choice(ou), rng.choice(ou), rng.choice(ou)]})
+    sets = [("grammar", attacks), ("nest", templates), ("compressed", comp), ("trunc", trunc), ("mut", muts), ("map_keys", keyed)]
     total_crashes = 0
     for tag, inputs in sets:
         obs, crashes = run_inputs(v, inputs, tag)
@@ -165,7 +172,7 @@ def run(tier, seed):
     v.sample({"why": comp[10]["why"], "len": len(comp[10]["bytes"])})
     v.cov["rule"] = ("inputs = EtfAttack!TermAttacks/HeaderAttacks (every tag x 15 boundary values of each length field x 3-6 data tails, also one level down), "
                      "nest templates for 14 nesting positions x depths up to 10^5 (10^6 thorough), compressed sections that lie about their size incl. 64 MB bombs and "
-                     "300-level nesting, every truncation offset and seeded mutations/splices of the universe's valid encodings; each input through 9 entry points on a "
+                     "300-level nesting, every truncation offset and seeded mutations/splices of the universe's valid encodings, well-formed maps keyed by every ordered pair of the order universe; each input through 9 entry points on a "
                      "2 MiB thread under a counting allocator; evaluations = input x entry point, distinct = distinct inputs")
     v.cov["contract"] = "result in {ok, err}; largest single allocation <= 256*(len+inflated)+65536; process survives"
     v.assumptions += ["crash and allocation are observed by the OS / a counting global allocator, not by TLC (the spec generates the inputs and states the contract)",
